@@ -55,6 +55,7 @@ type vRecipe struct {
 	Label      string   `json:"label"`
 	Subject    string   `json:"subject"`              // DID that signs
 	Format     string   `json:"format"`               // "jwt" | "zero" (zero value, not a JWT)
+	Iss        *string  `json:"iss,omitempty"`        // iss/sub claims (default: the signer; "" = no iss/sub claim at all)
 	NoKid      bool     `json:"noKid,omitempty"`      // sign without kid header
 	NoID       bool     `json:"noId,omitempty"`       // no jti
 	JTI        string   `json:"jti,omitempty"`        // explicit jti (default subject#label)
@@ -279,8 +280,17 @@ func (w *vWorld) build(rec vRecipe) *vBuilt {
 			jti = rec.Label
 		}
 		claims := map[string]interface{}{
-			jwt.IssuerKey: rec.Subject, jwt.SubjectKey: rec.Subject, jwt.NotBeforeKey: w.t0 - 1000,
-			"vlabel": rec.Label, // makes every built JWT distinct
+			jwt.NotBeforeKey: w.t0 - 1000,
+			"vlabel":         rec.Label, // makes every built JWT distinct
+		}
+		// the party behind a presentation is the SIGNER (DID of the kid header); iss/sub are just claims and may name
+		// somebody else or be absent (VerifyVP does not compare them with the signer when there are no credentials)
+		iss := rec.Subject
+		if rec.Iss != nil {
+			iss = *rec.Iss
+		}
+		if iss != "" {
+			claims[jwt.IssuerKey], claims[jwt.SubjectKey] = iss, iss
 		}
 		if !rec.NoID {
 			claims[jwt.JwtIDKey] = jti
@@ -786,6 +796,13 @@ func (r *vRunner) genServerOp(lastExp map[string]int64) vOp {
 				class = "retract:non-owner"
 				rec = vRecipe{Label: r.label(), Subject: other, Format: "jwt", Aud: []string{vSvc}, Retraction: true, Exp: i64(3600 + int64(rng.Intn(600))),
 					RetractJTI: to.Ptr(row.PresentationID), Creds: []string{}, VerifyS: true, VerifyC: true}
+				// forged: signed by `other` with its own key (so the signature verifies), but the claims name the owner / nobody
+				switch rng.Intn(3) {
+				case 0:
+					class, rec.Iss = "retract:non-owner-iss-names-owner", to.Ptr(row.CredentialSubjectID)
+				case 1:
+					class, rec.Iss = "retract:non-owner-no-iss", to.Ptr("")
+				}
 			}
 		}
 	case pick < 93:
